@@ -9,5 +9,6 @@ import Libvna.Props.C14
 import Libvna.Props.C15
 import Libvna.Props.C16
 import Libvna.Props.C17
+import Libvna.Props.C19
 import Libvna.Props.C20
 import Libvna.Driver.Main
